@@ -2047,7 +2047,7 @@ func ruleQueryStringsWhole(c *chk.Ctx) {
 		return
 	}
 	n := 0
-	ir.Instrs(f, func(ins ssa.Instruction) {
+	c.P.ExtInstrs(f, func(ins ssa.Instruction) {
 		mu, ok := ins.(*ssa.MapUpdate)
 		if !ok {
 			return
